@@ -58,10 +58,14 @@ def engine_c06(prop, tier, seed, work, known):
     items, expected, sess = [], {}, {}
     n_enum, n_sampled = 0, 0
     for cid, session, ss in scheds:
-        for k, (steps, final, complete, flightok) in enumerate(ss):
+        for k, (steps, final, complete, flightok, lostbuf) in enumerate(ss):
+            if lostbuf >= 0:
+                raise check.ProofBroken("model", "a read loop of a model schedule of a HEALTHY session ends with a non-empty read-ahead "
+                                        "buffer (nothing can be in flight when no entry is pending): case %s" % cid)
             if not flightok:
-                raise check.ProofBroken("model", "flight_ok (the hypothesis of C06_no_stuck_partial, claimed to hold in every "
-                                        "reachable state of a healthy session) is false in a state of a model schedule: case %s" % cid)
+                raise check.ProofBroken("model", "flight_ok is false in a state of a model schedule although C06_flight_ok proves it for "
+                                        "every reachable state of every good session: the generated session is not a good session "
+                                        "(distinct run ids, every run answered) or the extracted model differs from the proved one: case %s" % cid)
             if not complete:
                 raise check.ProofBroken("model", "a model schedule did not end within the fuel: case %s" % cid)
             i = "%s.%d" % (cid, k)
@@ -93,8 +97,13 @@ def engine_c06(prop, tier, seed, work, known):
         n = steps.count("(st ")
         steps_hist[n // 10 * 10] = steps_hist.get(n // 10 * 10, 0) + 1
         why = direct_final(session, o)
+        dv = ae.diverged(o)
         if why:
             res["violations"].append(("atpclient", case, o, expected[i], why + " - schedule forced gate by gate on the real client"))
+        elif dv and dv["stuck"]:
+            # the correspondence broke AND the continuation of that very run on the real client hangs: a concrete failing input
+            res["violations"].append(("atpclient", case, o, expected[i],
+                                      ae.diverged_text(dv, direct_final(session, dv["final"]) or "an Execute or Close that never returned")))
         elif o != expected[i]:
             res["disagreements"].append(("atpclient", case, o, expected[i]))
         else:
@@ -147,6 +156,9 @@ def replay_atpclient(d, work):
     check.log("implementation:  " + obs)
     check.log("model:           " + d["predicted"])
     why = direct_final(e[2], obs)
+    dv = ae.diverged(obs)
+    if not why and dv and dv["stuck"]:
+        why = ae.diverged_text(dv, direct_final(e[2], dv["final"]) or "an Execute or Close that never returned")
     if why or obs != d["predicted"]:
         check.log("VIOLATION property=%s replay=%s" % (d["property"], "replays/%s" % os.path.basename(d.get("path", ""))))
         check.log("reason: " + (why or "implementation and model disagree"))
@@ -188,17 +200,28 @@ C06 = {
                     "sync.Mutex, sync.Cond, sync.WaitGroup, channels and select behave as documented; any interleaving of gated steps "
                     "is possible and nothing else (code between two gates touches shared state only under c.mutex - cross-checked by "
                     "go test -race); writes to the transport do not block (buffered); the 60 s/5 s timers are outside the model"],
-    "level_text": "Theorems (all sessions of any length, all schedules = all label lists): an inductive invariant of the transition "
-                  "system of the repaired client (a pending result entry implies a live read loop that has not passed its exit "
-                  "check; entries correspond to callers between registration and return; the wait group counts the live loop and "
-                  "signal writers; every waiting caller's answer is in flight), no reachable state with an unreturned Execute or "
-                  "Close is without an enabled step, every step decreases a natural-number measure (every execution is finite), "
-                  "hence every maximal execution ends with each Execute returned exactly once, Close returned and no client "
-                  "goroutine left blocked after Close. The unchanged read loop is refuted by a 16-step schedule (D20).",
-    "level_note": "Model = coq/ATP/Client.v (hand-written, of the repaired client.go, one step per critical section of c.mutex or I/O "
-                  "operation), tied to atp/client.go on every run: cmd/instrument rewrites the tree's client.go into a gated copy outside "
-                  "the tree (go build -overlay), cmd/atpdrive forces model schedules on it and compares per-goroutine gate-kind "
-                  "traces, results, wire and who is left blocked; plus schedule exploration of the implementation alone.",
+    "level_text": "Theorems, machine-checked, closed under the global context, for every good session (any number of Execute calls with "
+                  "distinct run ids on any number of harness goroutines, signals both ways, any peer script that answers every run, "
+                  "optional Close) and every schedule (= every label list): C06_inv / C06_inv_inductive - the conservation "
+                  "invariant (pending entry => live read loop that has not passed its exit check; entries <-> callers between "
+                  "registration and return, distinct keys; wait group = live signal writers + live loop; every waiting caller's "
+                  "answer is in to_server / owed by the peer / in from_server / in the loop's read-ahead buffer / held by the "
+                  "loop) holds initially and is preserved by every step for every label; C06_flight_ok - it implies the executable "
+                  "predicate the correspondence runs evaluate; C06_terminates - every step decreases a natural-number measure; "
+                  "C06_no_stuck - no reachable state with an unreturned Execute is without an enabled step; "
+                  "C06_every_execute_returns_once - in every maximal execution every Execute has returned and has exactly one "
+                  "return event; C06_close_leaves_nothing_blocked - with Close and no write failure: Close returned nil, wait group "
+                  "0, read loop and every signal writer exited. C06_window_refuted: the unchanged read loop hangs on a 16-step "
+                  "schedule (D20).",
+    "level_note": "No hypothesis is left on the theorems besides the session being good (distinct run ids, every run answered) - the "
+                  "former side condition flight_ok is now a consequence (Proofs/ATPClientInv.v: one lemma per label kind and "
+                  "sub-invariant). Model = coq/ATP/Client.v (hand-written, of the repaired client.go, one step per critical section of "
+                  "c.mutex or I/O operation), tied to atp/client.go on every run: cmd/instrument rewrites the tree's client.go into a "
+                  "gated copy outside the tree (go build -overlay), cmd/atpdrive forces model schedules on it and compares "
+                  "per-goroutine gate-kind traces, results, wire and who is left blocked (a divergence is continued on the real client "
+                  "until nothing moves, so a hang is reported with its schedule); plus schedule exploration of the implementation alone. "
+                  "Outside the theorems: duplicate run ids (the peer model answers a run id once), the 60 s / 5 s timers, a caller that "
+                  "does not consume emitted signals.",
     "design_ref": "DESIGN.md §4, §5 C06",
     "trusted": ["cmd/instrument + cmd/atpdrive (gate insertion, cooperative scheduler, quiescence from a whitelist of goroutine states)",
                 "atomicity of the code between two gates (checked only by the race detector runs of the repository's own tests)"],
